@@ -22,6 +22,7 @@ fn main() {
         "reasm" => formats::cmd_reasm(rest),
         "roundtrip" => formats::cmd_roundtrip(rest),
         "mmap-run" => formats::cmd_mmap_run(rest),
+        "sigmf-fuzz" => formats::cmd_sigmf_fuzz(rest),
         "sink-modes" => formats::cmd_sink_modes(rest),
         "sink-child" => formats::cmd_sink_child(rest),
         "sink-crash" => formats::cmd_sink_crash(rest),
